@@ -1,7 +1,9 @@
 #!/usr/bin/env python3
-"""keep_from_log.py <mutation-name> <logfile> [note]: keeps a staged mutation (/tmp/muts/<name>) whose verify log shows a concrete VIOLATION."""
-import re, subprocess, sys
+"""keep_from_log.py <mutation-name | staging-dir> <logfile> [note]: keeps a staged mutation (/tmp/muts/<name>, or the directory given) whose verify log shows a VIOLATION."""
+import os, re, subprocess, sys
 name, log = sys.argv[1], sys.argv[2]
+src = name if os.path.isdir(name) else f"/tmp/muts/{name}"
+name = os.path.basename(src.rstrip("/"))
 note = sys.argv[3] if len(sys.argv) > 3 else ""
 txt = open(log).read()
 m = re.search(r"SUMMARY demo_without=(\d+) demo_with=(\d+) suite=(\d+) check=(\d+)", txt)
@@ -18,4 +20,4 @@ else:
     print("no violation line", name); sys.exit(1)
 if note:
     caught = note + "; " + caught
-subprocess.check_call(["python3", "/verif/tools/keep_mutation.py", f"/tmp/muts/{name}", name, caught])
+subprocess.check_call(["python3", "/verif/tools/keep_mutation.py", src, name, caught])
